@@ -25,6 +25,7 @@ type tfile struct {
 	Directive string // "", none, file, all, bogus
 	Bad       int    // index of the failing statement, -1 = none
 	Stmts     []int  // statement ids
+	Ckpt      bool   // checkpoint file (-- atlas:checkpoint)
 }
 
 type step struct {
@@ -48,8 +49,14 @@ func (f tfile) name() string { return f.Ver + "_f.sql" }
 
 func (f tfile) content() string {
 	var b strings.Builder
+	if f.Ckpt {
+		b.WriteString("-- atlas:checkpoint\n")
+	}
 	if f.Directive != "" {
-		b.WriteString("-- atlas:txmode " + f.Directive + "\n\n")
+		b.WriteString("-- atlas:txmode " + f.Directive + "\n")
+	}
+	if f.Ckpt || f.Directive != "" {
+		b.WriteString("\n")
 	}
 	for i, id := range f.Stmts {
 		if i == f.Bad {
@@ -77,6 +84,9 @@ func (s step) tokens() []string {
 		case "none", "file", "all":
 		default:
 			d = "bad"
+		}
+		if f.Ckpt {
+			d += "!"
 		}
 		bad := "-"
 		if f.Bad >= 0 {
@@ -293,47 +303,120 @@ func genC10(w *out.W, tier string, mu *sync.Mutex) []job {
 	if tier == "quick" {
 		shapes = [][]int{{1}, {2}, {3}, {1, 1}, {2, 2}, {1, 3}, {3, 2}, {1, 1, 1}, {2, 1, 2}}
 	}
-	w.Exhaust = true
-	w.Rule = fmt.Sprintf("exhaustive: %d directory shapes (files x statements) x tx-mode {none,file,all} x every crash point the run passes (before/after each ExecContext, before/after each revision write, before/after each commit; the list is read from an uncrashed reference run and compared with the model's trace) ; scenario = apply (killed at the point with os.Exit(137)), apply, apply on a real SQLite file with the real CLI. Non-trivial = the process was really killed at the point; distinct by (shape, mode, point, occurrence)", len(shapes))
-	var jobs []job
-	id := 0
-	for _, sh := range shapes {
-		files := shapeFiles(sh)
-		for _, m := range []string{"none", "file", "all"} {
-			m := m
-			// reference run (also a case: its point sequence is compared with the model)
-			ref, err := runScenario([]step{{Mode: m, Files: files}})
-			id++
-			refID := fmt.Sprintf("c10-%d", id)
-			if err != nil {
-				w.Violation(refID, "harness", err.Error())
-				continue
-			}
-			record(w, refID, []step{{Mode: m, Files: files}}, ref)
-			if ref[0].Exit != "ok" || fmt.Sprint(ref[0].Journal) != fmt.Sprint(flat(files)) {
-				w.Violation(refID, "reference-run", fmt.Sprintf("fault-free apply of shape %v mode %s: exit=%s journal=%v stderr=%s", sh, m, ref[0].Exit, ref[0].Journal, ref[0].Stderr))
-				continue
-			}
-			occ := map[string]int{}
-			for _, p := range ref[0].Points {
-				occ[p]++
-				id++
-				cid := fmt.Sprintf("c10-%d", id)
-				p, k := p, occ[p]
-				steps := []step{{Mode: m, CrashPoint: p, CrashK: k, Files: files}, {Mode: m, Files: files}, {Mode: m, Files: files}}
-				sh := sh
-				jobs = append(jobs, job{id: cid, steps: steps, post: func(id string, steps []step, res []obs) {
-					w.Count("mode:" + m)
-					w.Count("point:" + p)
-					if res[0].Exit == "crash" {
-						w.NonTrivial(fmt.Sprintf("%v|%s|%s|%d", sh, m, p, k))
-					}
-					oracleC10(w, id, sh, files, m, p, k, res)
-				}})
+	// directories with a per-file txmode directive (valid combinations only: the
+	// invalid ones are C13's) and with checkpoint files
+	type dcase struct {
+		files []tfile
+		modes []string
+		label string
+	}
+	var extra []dcase
+	dirShapes := [][]int{{2, 2}, {3, 1}}
+	if tier == "thorough" {
+		dirShapes = [][]int{{2, 2}, {3, 1}, {1, 3}, {3, 3}, {2, 1, 2}, {1, 2, 2}}
+	}
+	for _, sh := range dirShapes {
+		for on := range sh {
+			for _, d := range []string{"none", "file"} {
+				fs := shapeFiles(sh)
+				fs[on].Directive = d
+				global := "file"
+				if d == "file" {
+					global = "none"
+				}
+				extra = append(extra, dcase{fs, []string{global}, fmt.Sprintf("directive %s on file %d under --tx-mode %s", d, on+1, global)})
 			}
 		}
 	}
+	ck := func(sh []int, cks ...int) []tfile {
+		fs := shapeFiles(sh)
+		for _, c := range cks {
+			fs[c].Ckpt = true
+		}
+		return fs
+	}
+	ckModes := []string{"none"}
+	if tier == "thorough" {
+		ckModes = []string{"none", "file", "all"}
+	}
+	extra = append(extra,
+		dcase{ck([]int{2, 1}, 0), ckModes, "checkpoint first"},
+		dcase{ck([]int{1, 2, 1}, 1), ckModes, "checkpoint in the middle"},
+		dcase{ck([]int{1, 2, 1, 1}, 0, 2), ckModes, "two checkpoints, files between and after"},
+		dcase{ck([]int{2, 1, 3, 1}, 0, 2), ckModes, "two checkpoints, three statements in the last"},
+	)
+	w.Exhaust = true
+	w.Rule = fmt.Sprintf("exhaustive: (%d directory shapes (files x statements) x tx-mode {none,file,all} + %d directories with a 'txmode none|file' directive on one file under the other global mode or with one/two checkpoint files) x every crash point the run passes (before/after each ExecContext, before/after each revision write, before/after each commit; the list is read from an uncrashed reference run and compared with the model's trace) ; scenario = apply (killed at the point with os.Exit(137)), apply, apply on a real SQLite file with the real CLI. Non-trivial = the process was really killed at the point; distinct by (directory, mode, point, occurrence)", len(shapes), len(extra))
+	var jobs []job
+	id := 0
+	add := func(files []tfile, m, label string) {
+		// reference run (also a case: its point sequence is compared with the model)
+		ref, err := runScenario([]step{{Mode: m, Files: files}})
+		id++
+		refID := fmt.Sprintf("c10-%d", id)
+		if err != nil {
+			w.Violation(refID, "harness", err.Error())
+			return
+		}
+		record(w, refID, []step{{Mode: m, Files: files}}, ref)
+		want := flat(pendingFresh(files))
+		if ref[0].Exit != "ok" || fmt.Sprint(ref[0].Journal) != fmt.Sprint(want) {
+			w.Violation(refID, "reference-run", fmt.Sprintf("fault-free apply of %s mode %s: exit=%s journal=%v want %v stderr=%s", label, m, ref[0].Exit, ref[0].Journal, want, ref[0].Stderr))
+			return
+		}
+		occ := map[string]int{}
+		for _, p := range ref[0].Points {
+			occ[p]++
+			id++
+			cid := fmt.Sprintf("c10-%d", id)
+			p, k := p, occ[p]
+			steps := []step{{Mode: m, CrashPoint: p, CrashK: k, Files: files}, {Mode: m, Files: files}, {Mode: m, Files: files}}
+			jobs = append(jobs, job{id: cid, steps: steps, post: func(id string, steps []step, res []obs) {
+				w.Count("mode:" + m)
+				w.Count("point:" + p)
+				if res[0].Exit == "crash" {
+					w.NonTrivial(fmt.Sprintf("%s|%s|%s|%d", label, m, p, k))
+				}
+				oracleC10(w, id, label, files, m, p, k, res)
+			}})
+		}
+	}
+	for _, sh := range shapes {
+		for _, m := range []string{"none", "file", "all"} {
+			add(shapeFiles(sh), m, fmt.Sprintf("shape %v", sh))
+		}
+	}
+	for _, c := range extra {
+		for _, m := range c.modes {
+			w.Count("extra:" + strings.SplitN(c.label, " ", 2)[0])
+			add(c.files, m, fmt.Sprintf("%s %v", c.label, shapeOf(c.files)))
+		}
+	}
 	return jobs
+}
+
+func shapeOf(fs []tfile) []int {
+	var sh []int
+	for _, f := range fs {
+		sh = append(sh, len(f.Stmts))
+	}
+	return sh
+}
+
+// pendingFresh: what `migrate apply` on a database without history has to run:
+// the files from the last checkpoint on (the checkpoint included), no earlier
+// file and no other checkpoint.
+func pendingFresh(fs []tfile) []tfile {
+	last := -1
+	for i, f := range fs {
+		if f.Ckpt {
+			last = i
+		}
+	}
+	if last < 0 {
+		return fs
+	}
+	return fs[last:]
 }
 
 func countOf(l []int, x int) int {
@@ -346,13 +429,20 @@ func countOf(l []int, x int) int {
 	return n
 }
 
-func oracleC10(w *out.W, id string, shape []int, files []tfile, mode, point string, k int, res []obs) {
-	desc := fmt.Sprintf("shape=%v mode=%s crash=%s:%d after-crash{journal=%v revs=%v} after-rerun{exit=%s journal=%v revs=%v}", shape, mode, point, k, res[0].Journal, res[0].Revs, res[1].Exit, res[1].Journal, res[1].Revs)
+func oracleC10(w *out.W, id string, label string, files []tfile, mode, point string, k int, res []obs) {
+	desc := fmt.Sprintf("%s mode=%s crash=%s:%d after-crash{journal=%v revs=%v} after-rerun{exit=%s journal=%v revs=%v}", label, mode, point, k, res[0].Journal, res[0].Revs, res[1].Exit, res[1].Journal, res[1].Revs)
 	if res[0].Exit != "crash" {
 		w.Violation(id, "no-crash", "the crash point was not reached: "+desc)
 		return
 	}
-	all := flat(files)
+	run := pendingFresh(files)
+	all := flat(run)
+	eff := func(f tfile) string {
+		if f.Directive == "none" || f.Directive == "file" {
+			return f.Directive
+		}
+		return mode
+	}
 	// revision table never records a statement whose effect is absent (checked after the crash and after the rerun)
 	for si, o := range res[:2] {
 		for _, r := range o.Revs {
@@ -380,45 +470,51 @@ func oracleC10(w *out.W, id string, shape []int, files []tfile, mode, point stri
 			}
 		}
 	}
-	if mode != "none" {
-		// a crash never leaves a file half applied
-		pos := 0
-		for _, f := range files {
-			n := 0
-			for _, s := range f.Stmts {
-				n += countOf(res[0].Journal, s)
-			}
-			if n != 0 && n != len(f.Stmts) {
-				w.Violation(id, "half-applied-file", fmt.Sprintf("file %s half applied after the crash: %s", f.Ver, desc))
-				return
-			}
-			pos += n
+	// a crash never leaves a file that runs in a transaction half applied
+	for _, f := range files {
+		if eff(f) == "none" {
+			continue
 		}
-		if mode == "all" && len(res[0].Journal) != 0 && len(res[0].Journal) != len(all) {
-			w.Violation(id, "all-not-atomic", "tx-mode all left a partial result after the crash: "+desc)
+		n := 0
+		for _, s := range f.Stmts {
+			n += countOf(res[0].Journal, s)
+		}
+		if n != 0 && n != len(f.Stmts) {
+			w.Violation(id, "half-applied-file", fmt.Sprintf("file %s half applied after the crash: %s", f.Ver, desc))
 			return
 		}
+	}
+	if mode == "all" && len(res[0].Journal) != 0 && len(res[0].Journal) != len(all) {
+		w.Violation(id, "all-not-atomic", "tx-mode all left a partial result after the crash: "+desc)
+		return
 	}
 	if res[1].Exit != "ok" {
 		w.Violation(id, "rerun-failed", "re-running after the crash failed: "+desc+" stderr="+res[1].Stderr)
 		return
 	}
-	// after the re-run: every effect present; exactly once (file/all); at most one duplicate (none)
+	// after the re-run: every effect present; exactly once for files that run in a
+	// transaction; at most one duplicate overall, of a statement of a file without one
 	dups := 0
-	for _, s := range all {
-		switch c := countOf(res[1].Journal, s); {
-		case c == 0:
-			w.Violation(id, "statement-lost", fmt.Sprintf("statement %d lost: %s", s, desc))
-			return
-		case c > 1:
-			dups += c - 1
+	for _, f := range run {
+		for _, s := range f.Stmts {
+			switch c := countOf(res[1].Journal, s); {
+			case c == 0:
+				w.Violation(id, "statement-lost", fmt.Sprintf("statement %d lost: %s", s, desc))
+				return
+			case c > 1:
+				if eff(f) != "none" {
+					w.Violation(id, "executed-twice", "a statement ran twice in a transactional mode: "+desc)
+					return
+				}
+				dups += c - 1
+			}
 		}
 	}
-	if mode != "none" && dups > 0 {
-		w.Violation(id, "executed-twice", "a statement ran twice in a transactional mode: "+desc)
+	if len(res[1].Journal) != len(all)+dups {
+		w.Violation(id, "unplanned-statement", "a statement outside the pending files ran: "+desc)
 		return
 	}
-	if mode == "none" && dups > 1 {
+	if dups > 1 {
 		w.Violation(id, "too-many-repeats", "more than the one statement in flight ran twice: "+desc)
 		return
 	}
